@@ -183,7 +183,9 @@ THE ==
 TCmd ==
   /\ Line.ev = "Cmd"
   /\ cmds' = IF Line.tx = tx THEN cmds + 1 ELSE cmds
-  /\ UNCHANGED <<scn, hooks, pred, reqi, tx, acq, step, lastw, pendA, failedH, open, cancelled, laterStart, lateErr, sawAfter, inWin, winStarted, outStarted, run, runView, seen, pg, ended, endS, endC, nviol>>
+  \* C10: values of a previous run are never visible in the next: after the START command a task holds no end-of-run time
+  /\ nviol' = nviol + Soft("NoLeak", (Line.tx = "START_ACTIVITY") => ~Line.held, <<Line.tx, "task still holds run_end_time_ms of the previous run">>)
+  /\ UNCHANGED <<scn, hooks, pred, reqi, tx, acq, step, lastw, pendA, failedH, open, cancelled, laterStart, lateErr, sawAfter, inWin, winStarted, outStarted, run, runView, seen, pg, ended, endS, endC>>
 
 \* published run events: SOSOR (START STARTED) opens a run; the end-of-run pair must occur exactly once per run
 TRun ==
@@ -208,6 +210,8 @@ TRun ==
              \* (a START cancelled before the environment was RUNNING is not a run whose end must be recorded)
              + Soft("EndExactlyOnce", isStart => (run = 0 \/ ended \/ (endS = 1 /\ endC = 1)), <<run, endS, endC>>)
              + Soft("EndExactlyOnce", ((isEndS \/ isEndC \/ isTd) /\ Line.rn # 0) => Line.rn = run, <<Line.tx, Line.rn, run>>)
+             \* an end of run is recorded only for a run that was opened (SOSOR published)
+             + Soft("EndExactlyOnce", (isEndS \/ isEndC) => run # 0, <<Line.tx, Line.status, "end-of-run record without a run">>)
   /\ UNCHANGED <<scn, hooks, pred, reqi, tx, acq, step, lastw, pendA, failedH, open, cancelled, cmds, laterStart, lateErr, sawAfter>>
 
 \* a ControlEnvironment reply: compared with the model's prediction; the run is over after a successful STOP,
